@@ -37,6 +37,7 @@ func c05(tier string) []*explore.Scenario {
 		out = append(out, c05Server(k, 0))
 	}
 	out = append(out, c05Server(2, 1))
+	out = append(out, c05ServerQ(2, 0, true), c05ServerQ(3, 0, true), c05ServerQ(2, 1, true))
 	out = append(out, c05TwoConnections(1), c05TwoConnections(0))
 	// (c) id allocation under concurrent starts: the C01 drivers (wire oracle reports duplicate ids)
 	out = append(out, donors("C05", c01(tier))...)
@@ -202,10 +203,18 @@ func c05ClientL(mix string, bound int, late bool) *explore.Scenario {
 
 // c05Server: the request envelopes of k streams arrive in every
 // per-stream-order-preserving interleaving.
-func c05Server(k, bound int) *explore.Scenario {
+func c05Server(k, bound int) *explore.Scenario { return c05ServerQ(k, bound, false) }
+
+// quiesce: the system comes to rest after every envelope (a stream whose envelopes have all
+// arrived has ended - handler returned, registration gone - before the next envelope arrives).
+func c05ServerQ(k, bound int, quiesce bool) *explore.Scenario {
 	fam := "C05/server-seam"
+	name := fmt.Sprintf("C05/server-seam/k=%d/d=%d", k, bound)
+	if quiesce {
+		name += "/quiescing"
+	}
 	return &explore.Scenario{
-		Name:   fmt.Sprintf("C05/server-seam/k=%d/d=%d", k, bound),
+		Name:   name,
 		Family: fam, Prop: "C05", Bound: bound,
 		Run: func() {
 			w := env.NewWorld()
@@ -239,6 +248,9 @@ func c05Server(k, bound int) *explore.Scenario {
 					return
 				}
 				scripts[i] = scripts[i][1:]
+				if quiesce {
+					vsched.Quiesce()
+				}
 			}
 			vsched.Quiesce()
 			vsched.Obs("order=%s", order)
